@@ -112,11 +112,18 @@ func isSymChar(c byte) bool {
 
 // buildScript: all obligations checked incrementally. If onlyCand, only candidate obligations are checked.
 func (vc *VC) buildScript(onlyCand bool) (string, []*Obligation) {
+	return vc.buildScriptRange(onlyCand, 0, -1)
+}
+
+// buildScriptRange: as buildScript, but only the checked obligations with ordinal in [from, to) are checked (the
+// others are assumed, as they are after their own check in the full script); the script ends after the last one.
+func (vc *VC) buildScriptRange(onlyCand bool, from, to int) (string, []*Obligation) {
 	var b strings.Builder
 	for _, ax := range vc.e.axioms {
 		b.WriteString("(assert " + ax + ")\n")
 	}
 	var checked []*Obligation
+	ord := 0
 	for _, it := range vc.items {
 		if it.Ob == nil {
 			b.WriteString(it.Text)
@@ -128,8 +135,14 @@ func (vc *VC) buildScript(onlyCand bool) (string, []*Obligation) {
 			continue
 		}
 		if (!onlyCand || ob.Candidate > 0) && !ob.Skip {
-			b.WriteString("(push 1)\n(assert (not " + ob.Term + "))\n(check-sat)\n(pop 1)\n")
-			checked = append(checked, ob)
+			if to >= 0 && ord >= to {
+				break
+			}
+			if ord >= from {
+				b.WriteString("(push 1)\n(assert (not " + ob.Term + "))\n(check-sat)\n(pop 1)\n")
+				checked = append(checked, ob)
+			}
+			ord++
 		}
 		b.WriteString("(assert " + ob.Term + ")\n")
 	}
